@@ -19,6 +19,35 @@ from vlib import harness
 
 UNITS = ["commands", "files", "s", "b"]
 
+# how a user may write the limit: unit names with the factor *I* attach to them (not read from xonsh)
+SYNONYMS = {
+    "commands": [("", 1), ("c", 1), ("cmd", 1), ("cmds", 1), ("command", 1), ("commands", 1)],
+    "files": [("f", 1), ("files", 1)],
+    "s": [("s", 1), ("sec", 1), ("second", 1), ("seconds", 1), ("m", 60), ("min", 60), ("mins", 60), ("h", 3600), ("hr", 3600), ("hour", 3600), ("hours", 3600), ("d", 86400), ("day", 86400), ("days", 86400)],
+    "b": [("b", 1), ("byte", 1), ("bytes", 1), ("kb", 1024), ("kilobyte", 1024), ("kilobytes", 1024), ("mb", 1024 * 1024), ("megs", 1024 * 1024)],
+}
+
+
+def spell(rng, lim, unit):
+    """(how, value): the limit (lim, unit) as the constructor argument or as $XONSH_HISTORY_SIZE, in one of the accepted spellings."""
+    r = rng.random()
+    if r < 0.5:
+        return ["ctor-tuple", [lim, unit]]
+    how = "env" if r < 0.8 else "ctor"
+    if unit == "commands" and rng.random() < 0.15:
+        return [how + "-number", lim]
+    if rng.random() < 0.2:
+        return [how + "-tuple", [lim, unit]]
+    fits = [(n, f) for n, f in SYNONYMS[unit] if (lim % f == 0) or (unit == "s" and (2 * lim) % f == 0)]
+    name, f = rng.choice(fits)
+    num = str(lim // f) if lim % f == 0 else repr(lim / f)
+    if lim >= 0 and rng.random() < 0.1:
+        num = "+" + num
+    name = rng.choice([name, name.upper(), name.title()])
+    text = rng.choice(["", " "]) + num + rng.choice(["", " ", "  "]) + name + rng.choice(["", " "])
+    return [how + "-string", text]
+
+
 
 class C14:
     id = "C14"
@@ -27,7 +56,7 @@ class C14:
     tables = True
     rule = (
         "cases = (collection of 0-12 real JSON history files with random command counts incl. 0, byte sizes, ages, live/stale lock flags, corrupt, truncated "
-        "and empty members, optional custom $XONSH_HISTORY_FILE; limit in one of the four units chosen at and around every boundary the collection defines; forced or not) "
+        "and empty members, optional custom $XONSH_HISTORY_FILE; limit in one of the four units chosen at and around every boundary the collection defines, given as tuple / number / spelled string through the constructor or $XONSH_HISTORY_SIZE; forced or not) "
         "run through the real JsonHistoryGC thread, plus SQLite tables of 0-200 rows through SqliteHistoryGC; distinct_nontrivial = distinct (file kinds/sizes/order, unit, limit, force) "
         "tuples in which at least two files (or rows) were GC candidates"
     )
@@ -158,7 +187,10 @@ class C14:
         buf = io.StringIO()
         with contextlib.redirect_stdout(buf), warnings.catch_warnings():
             warnings.simplefilter("ignore")
-            gc = self.J.JsonHistoryGC(wait_for_shell=False, size=(lim, unit), force=force)
+            size = self.apply_spelling(case, rec)
+            if size is False:
+                return
+            gc = self.J.JsonHistoryGC(wait_for_shell=False, size=size, force=force)
             gc.join(60)
         if gc.is_alive():
             rec.violation("HANG/JsonHistoryGC", case, None)
@@ -233,6 +265,37 @@ class C14:
                 except Exception as e:
                     rec.violation("STALE-LOCK/unloadable-after-unlock", case, {"err": repr(e)})
 
+    def apply_spelling(self, case, rec):
+        """Hand the limit to the collector the way the case says; returns the constructor's size argument (None = read
+        $XONSH_HISTORY_SIZE) or False when the spelled limit already reads back differently (reported)."""
+        import xonsh.tools as xt
+
+        lim, unit = case["limit"], case["unit"]
+        how, value = case.get("spelling") or ["ctor-tuple", [lim, unit]]
+        value = tuple(value) if isinstance(value, list) else value
+        rec.count("limit_given_as_" + how)
+        env = self.XSH.env
+        if how.startswith("env"):
+            try:
+                env["XONSH_HISTORY_SIZE"] = value
+                got = tuple(env.get("XONSH_HISTORY_SIZE"))
+            except Exception as e:
+                rec.violation(f"LIMIT-PARSING/{unit}/accepted-spelling-rejected/{type(e).__name__}", case, {"value": repr(value)})
+                return False
+            size = None
+        else:
+            try:
+                got = tuple(xt.to_history_tuple(value))
+            except Exception as e:
+                rec.violation(f"LIMIT-PARSING/{unit}/accepted-spelling-rejected/{type(e).__name__}", case, {"value": repr(value)})
+                return False
+            size = value
+        if got != (lim, unit):
+            rec.violation(f"LIMIT-PARSING/{unit}/read-back-differs", case, {"value": repr(value), "got": repr(got), "want": repr((lim, unit))})
+            return False
+        rec.count("limit_spellings_read_back")
+        return size
+
     def run_sqlite(self, case, rec):
         import xonsh.history.sqlite as S
 
@@ -248,7 +311,10 @@ class C14:
         lim, unit = case["limit"], case["unit"]
         with warnings.catch_warnings():
             warnings.simplefilter("ignore")
-            gc = S.SqliteHistoryGC(wait_for_shell=False, size=(lim, unit), filename=fn)
+            size = self.apply_spelling(case, rec)
+            if size is False:
+                return
+            gc = S.SqliteHistoryGC(wait_for_shell=False, size=size, filename=fn)
             gc.join(60)
         if gc.is_alive():
             rec.violation("HANG/SqliteHistoryGC", case, None)
@@ -304,7 +370,7 @@ class C14:
                 rng.shuffle(rows)
                 unit = rng.choices(["commands", "files", "s", "b"], [8, 1, 1, 1])[0]
                 lim = rng.choice([0, 1, max(n - 1, 0), n, n + 1, -1, rng.randint(0, max(n, 1))])
-                case = {"backend": "sqlite", "rows": rows, "limit": lim, "unit": unit}
+                case = {"backend": "sqlite", "rows": rows, "limit": lim, "unit": unit, "spelling": spell(rng, lim, unit) if lim >= 0 else None}
                 if it < 2:
                     rec.sample({k: (v if k != "rows" else v[:5]) for k, v in case.items()}, "sqlite")
                 self.run_case(case, rec)
@@ -330,8 +396,13 @@ class C14:
             lim = rng.choice(sorted(cands))
             if unit == "s" and lim == 0:
                 lim = 1
+            # limits a user would write with a larger unit name (kb, min, h ...)
+            if unit == "b" and lim >= 1024 and rng.random() < 0.4:
+                lim = lim // 1024 * 1024
+            elif unit == "s" and lim >= 120 and rng.random() < 0.4:
+                lim = lim // 60 * 60 if lim < 7200 or rng.random() < 0.5 else lim // 3600 * 3600
             custom = rng.choice([f["i"] for f in files]) if files and rng.random() < 0.15 else None
-            case = {"files": [{k: f[k] for k in ("i", "kind", "ncmd", "age", "pad")} for f in files], "unit": unit, "limit": lim, "force": force, "custom": custom}
+            case = {"files": [{k: f[k] for k in ("i", "kind", "ncmd", "age", "pad")} for f in files], "unit": unit, "limit": lim, "force": force, "custom": custom, "spelling": spell(rng, lim, unit)}
             if it < 2:
                 rec.sample(case, "json")
             self.run_case(case, rec)
